@@ -98,6 +98,14 @@ def Q(val):
     return SourceValue(m * u(unit))
 
 
+def _sourced(value, src):
+    """SourceObject for a text / time zone input, with the user's own source when the spec carries one."""
+    if src:
+        from efootprint.abstract_modeling_classes.explainable_object_base_class import Source
+        return SourceObject(value, Source(src[0], src[1]))
+    return SourceObject(value)
+
+
 def hourly(start, values):
     return SourceHourlyValues(create_hourly_usage_df_from_list(list(values), datetime(*start)))
 
@@ -154,7 +162,7 @@ def kwargs_for(entry, objs):
         kw["fixed_nb_of_instances"] = Q(entry["fixed_nb_of_instances"])
     for a in meta["choices"]:
         if a in entry:
-            kw[a] = SourceObject(entry[a])
+            kw[a] = _sourced(entry[a], entry.get(a + "@source"))
     for a in meta["links"]:
         kw[a] = objs[entry[a]]
     for a in meta["lists"]:
@@ -162,7 +170,7 @@ def kwargs_for(entry, objs):
     if cls_name == "Country":
         kw["short_name"] = entry.get("short_name", "XX")
         kw.setdefault("average_carbon_intensity", Q([85.0, "g/kWh"]))
-        kw["timezone"] = SourceObject(pytz.timezone(entry["timezone"]))
+        kw["timezone"] = _sourced(pytz.timezone(entry["timezone"]), entry.get("timezone@source"))
     if cls_name == "UsagePattern":
         kw["hourly_usage_journey_starts"] = hourly(entry["start"], entry["starts"])
     return kw
